@@ -20,7 +20,12 @@ EXPLANATION = ("A1 start(): on the path where one of the caller's controls has t
 TRUSTED = ['the server returns cookies as RFC 2696 says', 'C19 (paging control codec)', 'C10 (stream state machine)']
 UNDECIDED = ['exactly-once delivery / number of pages / termination over a run (runtime quantities)']
 ASSUMPTIONS = ['a generic control stands for every element of the control lists']
-SHARED = [('C02', ('M1.', 'S.request-shape'), 'A4.options-reach-the-adapter')]
+SHARED = [('C02', ('M1.', 'S.request-shape'), 'A4.options-reach-the-adapter'),
+          # "each entry exactly once; follow-ups are issued only at the end of a page with that page's cookie": the adapter takes Ok(None)
+          # from the inner stream for "this page is complete, its result is in stream.res".  That holds only if next_inner answers
+          # Ok(None) on no path but the one on which the stream's own receiver yielded the SearchResultDone and stored it - the adapter
+          # itself leaves page k-1's result in stream.res while page k is read, so "a result is stored" does not say the page ended
+          ('C10', ('Q2.end-of-stream-means-done-received', 'Q2.done-stores-result'), 'A5.page-ends-only-on-its-own-result')]
 
 PR = "<ldap3::adapters::PagedResults<S, A> as ldap3::adapters::Adapter<'a, S, A>>::"
 OID = '1.2.840.113556.1.4.319'
